@@ -10,18 +10,18 @@
       _ctlseqs.py:207-227 response regexes       -> [match_rgb_at]/[parse_rgb_replies],
                                                     [parse_xtversion], [parse_xtwinops],
                                                     [parse_kitty_reply]
-      _ctlseqs.py:260-275 x_parse_color          -> [x_parse_color]  (as repaired by
-                                   pending_fixes/C12_x_parse_color.diff: per-component scale)
+      _ctlseqs.py:260-275 x_parse_color          -> [x_parse_color]  (per-component scale: /repo 54d19bd,
+                                   the repair of F7)
       image/kitty.py:296-335  KittyImage.is_supported   -> [kitty_supported], [kitty_is_supported]
-                                   (as repaired by pending_fixes/C12_kitty_query_stop.diff:
-                                    stop at the "c" that ends the DA1 reply)
+                                   (stop at the "c" that ends the DA1 reply: /repo ea400a1,
+                                    the repair of F10)
       image/iterm2.py:488-504 ITerm2Image.is_supported  -> [iterm2_supported]
       image/__init__.py:42-51,102 auto_image_class      -> [auto_style], [auto_image_class]
 
     Time is an abstract clock ([Z] ticks).  The terminal is a function from the request
     written to an arrival schedule (times relative to the write).  Every loop iteration /
     system call takes [cost i] ticks, [i] a global step counter — theorems quantify over
-    every bounded [cost].  Definitions only; proofs are in proofs/QueryProofs.v. *)
+    every bounded [cost].  Definitions only; proofs are in proofs/Query{Read,Parse,Get,End}Proofs.v. *)
 From Coq Require Import Ascii String List ZArith Bool Arith.
 Import ListNotations.
 Open Scope Z_scope.
@@ -308,7 +308,7 @@ Definition scale_component (c : list byte) : option Z :=
   else if forallb is_hex c then Some (hex_int c * 255 / (16 ^ Z.of_nat (length c) - 1))
   else None.
 
-(** _ctlseqs.py:260-275 (repaired).  None = the call raises (ValueError: a component is
+(** _ctlseqs.py:260-275.  None = the call raises (ValueError: a component is
     empty or not hexadecimal, or there are not exactly three). *)
 Definition x_parse_color (spec : list byte) : option (Z * Z * Z) :=
   match map scale_component (split_on 47 (after_first 58 spec)) with
@@ -483,18 +483,18 @@ Definition kitty_supported (name version : option (list byte)) (resp : option (l
   if name_is name "iterm2" then false                                    (* :302-303 *)
   else kitty_reply_ok resp && kitty_version_rule name version.           (* :315-333 *)
 
-(** kitty.py:308-311 (repaired): stop at the "c" that ends the DA1 reply, i.e. a "c" after
+(** kitty.py:308-313: stop at the "c" that ends the DA1 reply, i.e. a "c" after
     a CSI has been seen — the reply to the graphics query may itself contain a "c" *)
 Fixpoint contains (p s : list byte) : bool :=
   starts_with p s || match s with [] => false | _ :: r => contains p r end.
 Definition more_kitty (s : list byte) : bool := negb (ends_with [99] s && contains CSI s).
 
-(** iterm2.py:490-504; None = AttributeError (name is konsole and the version is None) *)
+(** iterm2.py:490-506; never None (an unknown version of konsole counts as unsupported) *)
 Definition iterm2_supported (name version : option (list byte)) : option bool :=
   if name_is name "iterm2" || name_is name "konsole" || name_is name "wezterm" then
     if negb (name_is name "konsole") then Some true
     else match version with
-         | None => None                         (* None.split: AttributeError *)
+         | None => Some false                   (* version unknown *)
          | Some v => match version_tuple v with
                      | Some t => Some (tuple_geb t [22; 4; 0])
                      | None => Some false       (* ValueError *)
